@@ -278,6 +278,24 @@ let cmd_binmetrics t =
   o (m_hamming n b c); o (m_matching n b c); o (m_jaccard a b c); o (m_dice a b c); o (m_kulsinski n a b c);
   o (m_rogerstanimoto n b c); o (m_sokalmichener n b c); o (m_russellrao n a b c); o (m_sokalsneath a b c); o (m_yule n a b c)
 
+(* arbitrary-precision decimal -> z, using the extracted arithmetic *)
+let z_of_string (s : string) : z =
+  let neg = String.length s > 0 && s.[0] = '-' in
+  let ten = z_of_int 10 in
+  let acc = ref Z0 in
+  String.iteri (fun i c -> if not (i = 0 && neg) then acc := Z.add (Z.mul !acc ten) (z_of_int (Char.code c - 48))) s;
+  if neg then Z.opp !acc else !acc
+let next_bigz t = z_of_string (next t)
+let next_bigmat t rows cols = List.init rows (fun _ -> List.init cols (fun _ -> next_bigz t))
+
+(* otcert n m e C[n*m] F[n*m] u[n] v[m]   (big decimal integers) *)
+let cmd_otcert t =
+  let n = next_int t in let m = next_int t in
+  let e = next_bigz t in
+  let c = next_bigmat t n m in let f = next_bigmat t n m in
+  let u = List.init n (fun _ -> next_bigz t) in let v = List.init m (fun _ -> next_bigz t) in
+  out_int (if ot_cert_chk (nat_of_int n) (nat_of_int m) e c f u v then 1 else 0)
+
 (*DISPATCH-BEGIN*)
 let dispatch : (string * (toks -> unit)) list = [
   ("heapseq", cmd_heapseq);
@@ -301,6 +319,7 @@ let dispatch : (string * (toks -> unit)) list = [
   ("fmul", cmd_fmul);
   ("sparseops", cmd_sparseops);
   ("binmetrics", cmd_binmetrics);
+  ("otcert", cmd_otcert);
 ]
 (*DISPATCH-END*)
 
